@@ -665,7 +665,7 @@ fn main() {
             }
         }
         let mut rng = ctx.rng();
-        for _ in 0..ctx.size(4_000, 150_000) {
+        for _ in 0..ctx.size(4_000, 100_000) {
             let (input, tag) = gen_case(&mut rng);
             let o = pool.run(&input);
             ctx.count(tag);
